@@ -57,6 +57,13 @@ ASSUMPTIONS = [
     'an argument dict stays bit-identical is recorded as the tag arg-modified(info) only, and aliasing of returned arrays is not tested '
     '(Reader.sample2volts IS the stored conversion array, by design); a failing input found by the search is re-evaluated and shrunk in a '
     'new interpreter so that the replay is a call sequence from a clean state',
+    'input forms: values of a dict given to write_meta_data may be Python int / float, numpy int64 / int32 / uint16 / float64 (float32 when exact), '
+    'lists of ints / floats / numpy ints, in a dict or a Bunch, md_file a str or a Path, arguments positional or by keyword; for the _get_* helpers '
+    'also tuples and ndarrays, and the explicit neuropixel_version argument of _get_max_int_from_meta. UNSUPPORTED, excluded: tuple / ndarray values '
+    'in write_meta_data (only `list` is serialised: (384, 0, 1) is written as its repr and re-read as a string); narrow numpy ints (uint16/int32) '
+    'or float32 in fields that enter products (numpy integer arithmetic wraps: fileTimeSecs=np.uint16(1542) gives ns=57120); forms are compared on '
+    'well-formed acquisition metadata only (an ndarray snsApLfSy with no AP and no LF channel raises instead of giving type None). A UTF-8 BOM is '
+    'kept in the first key by the code and by the model (SpikeGLX writes none)',
     'derived-quantity oracle tolerances: float32 gains 4e-7 relative (three roundings), float64 1e-14; ns within 0.5 + 1e-9*|ns| of the exact rational product',
 ]
 TRUSTED = [
@@ -158,20 +165,39 @@ class Scratch:
         return p
 
 
-def real_read(sc, text):
+def _hbyte(text, i=0):
+    return hashlib.sha1(text.encode('utf-8', 'surrogatepass')).digest()[i]
+
+
+_PATH_FORMS = ('str,positional', 'Path,positional', 'str,keyword', 'Path,keyword')
+
+
+def call_read(p, form):
     import spikeglx
+    arg = Path(p) if form.startswith('Path') else str(p)
+    return spikeglx.read_meta_data(md_file=arg) if form.endswith('keyword') else spikeglx.read_meta_data(arg)
+
+
+def call_write(d, p, form):
+    import spikeglx
+    arg = Path(p) if form.startswith('Path') else str(p)
+    return spikeglx.write_meta_data(md=d, md_file=arg) if form.endswith('keyword') else spikeglx.write_meta_data(d, arg)
+
+
+def real_read(sc, text, form=None):
+    """read_meta_data on a file holding `text`; the path is given as str / pathlib.Path, positionally / by keyword — a form drawn
+    from the content hash (so a replay reproduces it) unless given"""
     p = sc.put(text)
     try:
-        return dict(spikeglx.read_meta_data(p))
+        return dict(call_read(p, form or _PATH_FORMS[_hbyte(text) % 4]))
     finally:
         os.unlink(p)
 
 
-def real_write(sc, d):
-    import spikeglx
+def real_write(sc, d, form=None):
     p = sc.path()
     try:
-        spikeglx.write_meta_data(d, p)
+        call_write(d, p, form or _PATH_FORMS[len(d) % 4])
         with open(p, encoding='utf-8', newline='') as f:
             return f.read()
     finally:
@@ -424,6 +450,175 @@ def _first_token_diff(a, b, values_only=False):
 
 
 # ---------------------------------------------------------------------------------------------
+# input forms: every legitimate representation of the same metadata values must give the same answers
+# ---------------------------------------------------------------------------------------------
+def _form_rng(text, salt):
+    h = hashlib.sha1((text + '\x00' + str(salt)).encode('utf-8', 'surrogatepass')).digest()
+    return np.random.default_rng(list(h[:8]))
+
+
+def _conv_scalar(v, f):
+    return {'float': float, 'int': int, 'np.int64': np.int64, 'np.int32': np.int32, 'np.uint16': np.uint16, 'np.float64': np.float64,
+            'np.float32': np.float32}[f](int(v) if f in ('int', 'np.int64', 'np.int32', 'np.uint16') else v)
+
+
+def _conv_list(v, f):
+    iv = [int(x) for x in v]
+    if f == 'list-int':
+        return iv
+    if f == 'list-np.int64':
+        return [np.int64(x) for x in iv]
+    if f == 'list-mixed':
+        return [x if i % 2 else float(x) for i, x in enumerate(iv)]
+    if f == 'tuple-int':
+        return tuple(iv)
+    if f == 'ndarray-int64':
+        return np.array(iv, dtype=np.int64)
+    if f == 'ndarray-float64':
+        return np.array(iv, dtype=np.float64)
+    return list(v)
+
+
+def apply_forms(d, rng, for_write):
+    """The same metadata VALUES in another legitimate representation.  Scalars: Python float / int, numpy int64 / int32 / uint16 /
+    float64 (float32 only for writing and only when the value is exactly a float32); integer lists: floats, Python ints, numpy
+    ints, mixed — and, for the derived-quantity helpers only, tuples and integer / float ndarrays (write_meta_data serialises
+    `list` only: UNSUPPORTED forms there, see ASSUMPTIONS); container: dict or Bunch.  Returns (new dict, {key: form})."""
+    import spikeglx
+    out, spec = {}, {}
+    for k, v in d.items():
+        f = None
+        if type(v) is float and v == v and abs(v) != float('inf'):
+            if v.is_integer() and abs(v) < 2 ** 53:
+                opts = ['float', 'int', 'np.int64', 'np.float64']
+                if for_write:      # narrow numpy ints only where the value is formatted, not multiplied (numpy integer products wrap)
+                    if abs(v) < 2 ** 31:
+                        opts.append('np.int32')
+                    if 0 <= v < 65536:
+                        opts.append('np.uint16')
+                    if float(np.float32(v)) == v:
+                        opts.append('np.float32')
+            else:
+                opts = ['float', 'np.float64'] + (['np.float32'] if for_write and float(np.float32(v)) == v else [])
+            f = opts[int(rng.integers(0, len(opts)))]
+            out[k] = _conv_scalar(v, f)
+        elif type(v) is list and v and all(type(x) is float and x.is_integer() and abs(x) < 2 ** 53 for x in v):
+            opts = ['list-float', 'list-int', 'list-np.int64', 'list-mixed'] + ([] if for_write else ['tuple-int', 'ndarray-int64', 'ndarray-float64'])
+            f = opts[int(rng.integers(0, len(opts)))]
+            out[k] = _conv_list(v, f)
+        else:
+            out[k] = v
+        if f and f not in ('float', 'list-float'):
+            spec[k] = f
+    cont = ['dict', 'Bunch'][int(rng.integers(0, 2))]
+    spec['<container>'] = cont
+    return (spikeglx.Bunch(out) if cont == 'Bunch' else dict(out)), spec
+
+
+def forms_roundtrip(sc, text, salt=0):
+    """write_meta_data(form(parse(file))) re-read, against write_meta_data(parse(file)) re-read.  None when the base round trip does not
+    succeed; else (spec, problem or None).  Values are compared, not the written bytes (385 and 385.0 are the same number)."""
+    import copy
+    try:
+        d = real_read(sc, text)
+        base = d_enc(real_read(sc, real_write(sc, copy.deepcopy(d))))
+    except Exception:  # noqa
+        return None
+    rng = _form_rng(text, salt)
+    fd, spec = apply_forms(d, rng, for_write=True)
+    spec['<md_file>'] = _PATH_FORMS[int(rng.integers(0, 4))]
+    try:
+        w = real_write(sc, fd, form=spec['<md_file>'])
+        got = d_enc(real_read(sc, w, form=spec['<md_file>']))
+    except Exception as e:  # noqa
+        return spec, f'write_meta_data / read_meta_data raised {type(e).__name__}: {e} for the forms {spec}'
+    if got != base:
+        a, b = got.split(';'), base.split(';')
+        k = next((i for i, (x, y) in enumerate(zip(a, b)) if x != y), min(len(a), len(b)))
+        key = s_dec((b[k] if k < len(b) else a[k]).split('=')[0])
+        return spec, (f'key {key!r} given as {spec.get(key, "parsed float/list")} ({fd.get(key)!r}) is re-read differently from the parsed '
+                      f'value {d.get(key)!r} written and re-read; forms {spec}')
+    return spec, None
+
+
+def _values_of(md, spell, ver_form):
+    """Derived quantities as VALUES (ints, floats, float64 arrays), helper spelling positional / keyword."""
+    import spikeglx
+    kw = spell == 'keyword'
+    call = (lambda f: f(md=md)) if kw else (lambda f: f(md))
+    r, conv, cerr = shim_reader(md)
+    out = {}
+
+    def put(name, fn, cast):
+        try:
+            out[name] = ('ok', cast(fn()))
+        except Exception as e:  # noqa
+            out[name] = ('err', err_name(e))
+    put('version', lambda: call(spikeglx._get_neuropixel_version_from_meta), lambda x: x)
+    put('type', lambda: call(spikeglx._get_type_from_meta), lambda x: x)
+    put('nc', lambda: call(spikeglx._get_nchannels_from_meta), int)
+    put('sync', lambda: call(spikeglx._get_sync_trace_indices_from_meta), lambda x: [int(i) for i in x])
+    put('fs', lambda: call(spikeglx._get_fs_from_meta),
+        lambda x: x if x is None or isinstance(x, str) else [float(i) for i in x] if isinstance(x, (list, tuple, np.ndarray)) else float(x))
+    put('ns', lambda: r.ns, int)
+    ver = out['version'][1] if out['version'][0] == 'ok' else None
+    if ver_form == 'default' or ver is None:
+        put('maxint', lambda: call(spikeglx._get_max_int_from_meta), int)
+    elif ver_form == 'positional':
+        put('maxint', lambda: spikeglx._get_max_int_from_meta(md, ver), int)
+    else:
+        put('maxint', lambda: spikeglx._get_max_int_from_meta(md, neuropixel_version=ver), int)
+    if kw:
+        put('conv', lambda: spikeglx._conversion_sample2v_from_meta(meta_data=md), lambda c: {k: np.asarray(v, dtype=np.float64) for k, v in c.items()})
+    else:
+        out['conv'] = ('err', cerr) if cerr else ('ok', {k: np.asarray(v, dtype=np.float64) for k, v in conv.items()})
+    put('s2v', lambda: r.sample2volts, lambda a: np.asarray(a, dtype=np.float64))
+    put('range', lambda: r.range_volts, lambda a: np.asarray(a, dtype=np.float64))
+    return out
+
+
+def _same_value(a, b):
+    if a[0] != b[0]:
+        return False
+    x, y = a[1], b[1]
+    if isinstance(x, dict):
+        return isinstance(y, dict) and list(x) == list(y) and all(_same_value(('ok', x[k]), ('ok', y[k])) for k in x)
+    if isinstance(x, np.ndarray):
+        return isinstance(y, np.ndarray) and x.shape == y.shape and bool(np.all((x == y) | (np.abs(x - y) <= 4e-7 * np.abs(y))))
+    if isinstance(x, float) and isinstance(y, float):
+        return x == y
+    return type(x) is type(y) and x == y
+
+
+def forms_derived(sc, text, salt=0):
+    """The derived quantities on form(parse(file)) against those on parse(file), as values (gains to 4e-7 relative: another
+    scalar type may move the arithmetic between float32 and float64).  None when the file does not parse; else (spec, problem)."""
+    try:
+        d = real_read(sc, text)
+    except Exception:  # noqa
+        return None
+    rng = _form_rng(text, salt + 1000)
+    fd, spec = apply_forms(d, rng, for_write=False)
+    spec['<helpers>'] = ['positional', 'keyword'][int(rng.integers(0, 2))]
+    spec['<max_int version arg>'] = ['default', 'positional', 'keyword'][int(rng.integers(0, 3))]
+    with warnings.catch_warnings(), np.errstate(all='ignore'):
+        warnings.simplefilter('ignore')
+        import spikeglx
+        base = _values_of(spikeglx.Bunch(d), 'positional', 'default')
+        if base['type'] == ('ok', None) or base['type'][0] == 'err' or base['conv'][0] == 'err':
+            return None       # not a well-formed acquisition description: nothing to be form-independent about
+        got = _values_of(fd, spec['<helpers>'], spec['<max_int version arg>'])
+    for k in base:
+        if base[k][0] == 'err' and got[k][0] == 'err':
+            continue          # which exception an ill-typed field raises is not a value
+        if not _same_value(got[k], base[k]):
+            def sh(v):
+                return (v[0] + ':' + (np.array2string(v[1][:4], precision=9) if isinstance(v[1], np.ndarray) else repr(v[1])))[:160]
+            return spec, f'{k} = {sh(got[k])} for the forms {spec}; {sh(base[k])} for the dict as parsed'
+    return spec, None
+
+
+# ---------------------------------------------------------------------------------------------
 # generators
 # ---------------------------------------------------------------------------------------------
 _KEYS = ['acqApLfSy', 'appVersion', 'fileCreateTime', 'fileName', 'fileSHA1', 'fileSizeBytes', 'fileTimeSecs', 'firstSample',
@@ -577,6 +772,9 @@ def gen_grammar_text(rng, mode):
     if eol != '\n':
         classes.add('eol_' + repr(eol).strip("'"))
     text = eol.join(lines) + (eol if rng.integers(0, 4) else '')
+    if mode == 'wild' and rng.integers(0, 10) == 0:
+        text = '\ufeff' + text
+        classes.add('BOM')
     return text, classes
 
 
@@ -609,7 +807,7 @@ def gen_acq(rng, small=False, mutate=False):
             stream = 'ap' if rng.integers(0, 5) else 'lf'
         tags.append('stream=' + stream)
         nent = int(rng.choice([2, 3, 5, 8, 16, 32, 96, 384], p=[.15, .15, .15, .15, .15, .1, .05, .1])) if not small else int(rng.integers(1, 4))
-        nsy = 1 if rng.integers(0, 5) else 0
+        nsy = [0, 1, 1, 1, 2, 3][int(rng.integers(0, 6))]      # no sync word, one (usual), several
         k = int(rng.integers(0, 6))
         if k <= 1:
             nchn, sub = nent, 'full'
@@ -693,7 +891,16 @@ def gen_acq(rng, small=False, mutate=False):
         else:
             f[k] = '0.5'
     items = sorted(f.items(), key=lambda kv: (kv[0].startswith('~'), kv[0])) if rng.integers(0, 3) else [(k, f[k]) for k in rng.permutation(list(f))]
-    return ''.join(f'{k}={v}\n' for k, v in items), tags
+    eol = '\r\n' if rng.integers(0, 10) == 0 else '\n'
+    text = eol.join(f'{k}={v}' for k, v in items) + (eol if rng.integers(0, 6) else '')
+    if eol != '\n':
+        tags.append('eol=CRLF')
+    if not text.endswith(eol):
+        tags.append('no-final-eol')
+    if rng.integers(0, 25) == 0:
+        text = '\ufeff' + text       # a UTF-8 byte order mark: the code keeps it in the first key, so does the model
+        tags.append('BOM')
+    return text, tags
 
 
 def gen_duration(rng, fs_text):
@@ -743,6 +950,7 @@ def correspondence(ctx):
         meta.append((op, _desc(op, text, **kw), nontrivial, tuple(tags)))
 
     pure = []   # (desc, tags, first problem or None)
+    formed = []
 
     with Scratch() as sc:
         def purity_case(text, tags):
@@ -753,6 +961,17 @@ def correspondence(ctx):
             add('derive', text, pr['final'], ' conv=ok:' in pr['final'], ('derive', 'after-call-sequence'), sequence='purity_run')
             pure.append((_desc('purity', text), tags + (('arg-modified(info)',) if pr['arg_modified'] else ()),
                          pr['problems'][0] if pr['problems'] else None, len(pr['calls']), pr['arg_modified']))
+
+        def forms_case(op, fn, text, salt):
+            """another representation of the same values (drawn independently of them) against the plain parsed dict, which is itself
+            compared with the model by the 'roundtrip' / 'derive' case of the same text"""
+            fr = fn(sc, text, salt)
+            if fr is None:
+                return
+            spec, problem = fr
+            used = sorted({v for k, v in spec.items() if not k.startswith('<')})
+            tags = (op,) + tuple('form:' + v for v in used) + tuple(f'form:{k}={v}' for k, v in spec.items() if k.startswith('<'))
+            formed.append((_desc(op, text, salt=salt, forms={k: v for k, v in list(spec.items())[:12]}), tags, problem))
 
         # (c) float() and repr() of the model against CPython
         nfloat = ctx.n(1500, 20000)
@@ -809,6 +1028,8 @@ def correspondence(ctx):
                 add('parse', text, impl_parse(sc, text), False, ('parse',))
             if i % 16 == 1:
                 purity_case(text, ('purity', 'purity:grammar'))
+            if i % 5 == 2 and r.startswith('ok'):
+                forms_case('forms-roundtrip', forms_roundtrip, text, i)
 
         # (b) acquisition metadata: derived quantities + round trip
         for i in range(ctx.n(1500, 16000)):
@@ -817,9 +1038,13 @@ def correspondence(ctx):
             conv_ok = ' conv=ok:' in r
             t2 = ['derive'] + tags + ['conv=' + ('ok' if conv_ok else (re.search(r'conv=err:(\w+)', r) or [0, 'parse-error'])[1])]
             add('derive', text, r, conv_ok, t2)
-            if i % 3 == 0:
+            if i % 3 == 0 or i % 4 == 0:
                 rr = impl_roundtrip(sc, text)
                 add('roundtrip', text, rr, rr.startswith('ok'), ('roundtrip', 'mode=acq', 'outcome=' + rr.split()[0]))
+            if i % 4 == 0:
+                forms_case('forms-roundtrip', forms_roundtrip, text, i)
+            if i % 4 == 2:
+                forms_case('forms-derived', forms_derived, text, i)
             if i % 6 == 1:
                 purity_case(text, ('purity', 'purity:acq', 'purity:' + ('conv-ok' if conv_ok else 'conv-err')))
 
@@ -829,6 +1054,9 @@ def correspondence(ctx):
             add('roundtrip', text, impl_roundtrip(sc, text), True, ('roundtrip', 'fixture'), fixture=name)
             add('derive', text, impl_derive(sc, text), True, ('derive', 'fixture'), fixture=name)
             purity_case(text, ('purity', 'purity:fixture'))
+            forms_case('forms-roundtrip', forms_roundtrip, text, 0)
+            forms_case('forms-derived', forms_derived, text, 0)
+            forms_case('forms-derived', forms_derived, text, 1)
             try:
                 rc = impl_derive_constructor(sc, text)
             except Exception as e:  # noqa  (constructor stops where the shim reports the conversion error)
@@ -850,6 +1078,11 @@ def correspondence(ctx):
     ctx.note(f'{n_model_skip} case(s) outside the model (Err.model) were not compared')
     for desc, tags, problem, ncalls, am in pure:
         ctx.compare('purity', desc, problem or 'same-results', 'same-results', nontrivial=True, tags=tags)
+    for desc, tags, problem in formed:
+        ctx.compare(desc['op'], desc, problem or 'same-values', 'same-values', nontrivial=True, tags=tags)
+    if formed:
+        ctx.note(f'{len(formed)} input-form cases (scalar / list / container / path / spelling forms drawn independently of the values): '
+                 f'{sum(1 for q in formed if q[2])} with a different value')
     if pure:
         am = [q[4] for q in pure if q[4]]
         ctx.note(f'{len(pure)} call sequences of {pure[0][3]} calls each on one dict / one Reader (three rounds, interleaved library calls): '
@@ -907,7 +1140,8 @@ def oracle_roundtrip(sc, text):
         d = real_read(sc, text)
     except Exception as e:  # noqa
         if _well_formed(text):
-            return f'read_meta_data raised {type(e).__name__}: {e} on a file made of well-formed key=value lines'
+            return (f'read_meta_data raised {type(e).__name__}: {e} on a file made of well-formed key=value lines '
+                    f'(md_file given as {_PATH_FORMS[_hbyte(text) % 4]})')
         return None     # not a metadata file of the grammar: outside the quantifier
     for k, v in d.items():
         if isinstance(v, list) and not all(isinstance(x, float) and x.is_integer() for x in v):
@@ -920,7 +1154,8 @@ def oracle_roundtrip(sc, text):
         w = real_write(sc, passed)
         d2 = real_read(sc, w)
     except Exception as e:  # noqa
-        return f'writing / re-reading raised {type(e).__name__}: {e}'
+        return (f'writing / re-reading raised {type(e).__name__}: {e} (write_meta_data arguments given as {_PATH_FORMS[len(d) % 4]}, '
+                f'read_meta_data as {_PATH_FORMS[_hbyte(w) % 4] if "w" in dir() else _PATH_FORMS[_hbyte(text) % 4]})')
     if list(d2) != list(d):
         return f'keys after the round trip {list(d2)[:8]} != {list(d)[:8]}'
     for k in d:
@@ -1066,10 +1301,24 @@ def purity_calls(sc, text):
     return pr['calls'] if pr else []
 
 
+def oracle_forms(sc, text):
+    """Input forms: the same values as Python / numpy scalars, int / float / numpy lists (tuples, ndarrays for the helpers), dict or
+    Bunch, str or Path, positional or keyword arguments must give the same values as the dict as parsed.  The failing form is named."""
+    for salt in range(3):
+        for fn in (forms_roundtrip, forms_derived):
+            fr = fn(sc, text, salt)
+            if fr and fr[1]:
+                return fr[1]
+    return None
+
+
 def oracle(sc, text):
     r = oracle_roundtrip(sc, text)
     if r:
         return 'roundtrip', r
+    r = oracle_forms(sc, text)       # a defect of one representation is reported with that representation
+    if r:
+        return 'forms', r
     r = oracle_purity(sc, text)      # before `derived`: a stateful defect is reported as the call sequence that shows it
     if r:
         return 'purity', r
@@ -1105,7 +1354,7 @@ def fresh_oracle(text):
 def _oracle_shrunk(text):
     import framework
     framework.setup_paths()
-    fns = {'roundtrip': oracle_roundtrip, 'derived': oracle_derived, 'purity': oracle_purity}
+    fns = {'roundtrip': oracle_roundtrip, 'derived': oracle_derived, 'purity': oracle_purity, 'forms': oracle_forms}
     with Scratch() as sc:
         r = oracle(sc, text)
         if not r:
@@ -1120,7 +1369,7 @@ def _oracle_shrunk(text):
 
 def _shrink(sc, text, kind):
     """Greedy line removal while the same oracle keeps failing."""
-    fn = {'roundtrip': oracle_roundtrip, 'derived': oracle_derived, 'purity': oracle_purity}[kind]
+    fn = {'roundtrip': oracle_roundtrip, 'derived': oracle_derived, 'purity': oracle_purity, 'forms': oracle_forms}[kind]
     lines = text.split('\n')
     changed = True
     while changed and len(lines) > 1:
@@ -1174,8 +1423,12 @@ def search(ctx, reasons):
                        'agree with an independent reading of the fields',
             'purity': 'C09: the derived quantities and the written file are functions of the metadata: repeated and interleaved calls on '
                       'the same dict / the same Reader give the results obtained on a freshly read dict',
+            'forms': 'C09: the answers depend on the metadata VALUES only: Python / numpy scalars, int / float lists, dict / Bunch, str / Path, '
+                     'positional / keyword arguments give the values obtained from the dict as parsed',
             'oracle': 'C09 oracle runs'}
         how = {
+            'forms': 'python: harness/props/c09.py oracle_forms(sc, text) — the forms named in `observed` (drawn from the hash of `text`, salts 0..2) '
+                     'are applied to read_meta_data(text) and passed to write_meta_data / the _get_* helpers',
             'purity': 'python (fresh interpreter): harness/props/c09.py purity_run(sc, text) — the numbered call sequence in `calls` on the file `text`',
         }
         default_how = ("python: harness/props/c09.py oracle(sc, text) — write `text` to a .meta file, spikeglx.read_meta_data / "
